@@ -189,11 +189,19 @@ class Harness:
                                           checkpoint_frequency=cfg['ckpt'], num_checkpoints_to_keep=cfg['keep'],
                                           eval_frequency=cfg['eval'])
     periodic = {'p': self.HashEval('periodic'), 't': self.TrainEval()} if cfg['eval'] else None
+    the_sampler = SamplerSeam()
+    if cfg.get('shared_eval') and periodic is not None:
+      # the library's sampled-clients evaluation on the SAME round-indexed sampler object that drives training (it
+      # re-seats the sampler at the evaluated round, which leaves it where the training loop expects it)
+      import jax.numpy as jnp
+      model = fedjax.Model(init=lambda rng: {'w': jnp.asarray(0.5)}, apply_for_train=lambda p, b, r=None: b['x'] * p['w'],
+                           apply_for_eval=lambda p, b: b['x'] * p['w'], train_loss=lambda b, o: o * 0.0, eval_metrics={})
+      periodic['ms'] = fe.ModelSampleClientsEvaluationFn(the_sampler, model, fedjax.PaddedBatchHParams(batch_size=2))
     result = None
     try:
       with seams.patched(serialization, tf=proxy), seams.patched(checkpoint, tf=proxy), \
            seams.patched(fe, tf=proxy), seams.patched(flog, tf=proxy):
-        result = ('ok', fe.run_federated_experiment(self.algorithm, self.init_state, SamplerSeam(), config,
+        result = ('ok', fe.run_federated_experiment(self.algorithm, self.init_state, the_sampler, config,
                                                     periodic_eval_fn_map=periodic,
                                                     final_eval_fn_map={'final': self.HashEval('final')}))
     except fault.Crash:
@@ -370,4 +378,7 @@ def plan(ctx):
   else:
     # one real FedAvg (momentum server optimizer) experiment; the caller's init_state object is reused by every re-run
     cs += [{'cfg': {'num_rounds': 2, 'ckpt': 2, 'keep': 1, 'eval': 0}, 'algo': 'fedavg', 'all_prefixes_depth': -1}]
+  # periodic evaluation on sampled clients through the sampler object that also drives training
+  cs += [{'cfg': {'num_rounds': nr, 'ckpt': 1, 'keep': 1, 'eval': ev, 'shared_eval': True}, 'algo': 'fedavg', 'all_prefixes_depth': -1}
+         for nr, ev in (((4, 3), (3, 2), (4, 2)) if th else ((3, 2),))]
   ctx.pmap('explore', cs, chunk=1)
